@@ -5,7 +5,7 @@ import re
 from ..repo import AnalysisError
 from ..report import Ob, RuleSpec
 from ..astutil import (src, guards, flat_guards, calls_in, call_name, kwarg,
-                       const_value, iter_own_nodes, norm_key, is_within)
+                       const_value, iter_own_nodes, norm_key, is_within, ancestors)
 from ..cfg import cfg_of, Prov
 from .. import variants as V
 
@@ -343,6 +343,10 @@ def r3_innermost(repo):
             src(rets_i[0].value) if rets_i else None)
     elif src(test) in ("len(%s)" % ns, ns, "len(%s) > 0" % ns):
         okc = True
+    elif isinstance(test, ast.IfExp):
+        # the same condition written in the loop header itself
+        okc = src(test.body) == "len(%s)" % ns and src(test.test) == "limit is None"
+        msg = "stop condition must be len(%s) when no limit is given; found %s" % (ns, src(test))
     obs.append(Ob("C16-R3", "get_decl:loop-ends-at-root", _where(repo, f, loop), okc, msg))
     # miss -> None
     last = f.node.body[-1]
@@ -358,6 +362,41 @@ def r4_ordered(repo):
     ok = isinstance(v, ast.Call) and src(v.func).split(".")[-1] == "OrderedDict"
     return [Ob("C16-R4", "_add_entity:decls-kind-ordered", _where(repo, f, lit), ok,
                "'decls' must be an OrderedDict (declaration order); found %s" % (src(v) if v else None))]
+
+
+def _list_contributions(f, expr, at):
+    """What a list-valued expression is made of, as [(iterable, loop target, element, filters)] in order: comprehensions,
+    `a + b` concatenations, and a local that starts empty and is filled by `for ..: x.append(e)` loops.  None if the
+    expression is built in another way."""
+    g = cfg_of(f.node)
+    if isinstance(expr, ast.BinOp) and isinstance(expr.op, ast.Add):
+        l, r = _list_contributions(f, expr.left, at), _list_contributions(f, expr.right, at)
+        return None if l is None or r is None else l + r
+    if isinstance(expr, ast.ListComp):
+        if len(expr.generators) != 1:
+            return None
+        gen = expr.generators[0]
+        return [(gen.iter, gen.target, expr.elt, list(gen.ifs))]
+    if isinstance(expr, ast.Name):
+        defs = g.defs_reaching(expr.id, at)
+        if len(defs) != 1 or not isinstance(defs[0][1], ast.AST):
+            return None
+        v = defs[0][1]
+        if isinstance(v, ast.List) and not v.elts:
+            out = []
+            for n in iter_own_nodes(f.node):
+                if isinstance(n, ast.For):
+                    apps = [c for c in calls_in(n) if call_name(c) == "append" and src(c.func.value) == expr.id]
+                    for c in apps:
+                        inner = [a for a in ancestors(c) if isinstance(a, ast.For)]
+                        if inner[:1] != [n] or len(c.args) != 1:
+                            return None
+                        out.append((n.iter, n.target, c.args[0], [t for t, _p in flat_guards(c, stop=n)]))
+            others = [c for c in calls_in(f.node) if isinstance(c.func, ast.Attribute) and src(c.func.value) == expr.id and
+                      call_name(c) in ("extend", "insert", "pop", "remove", "clear")]
+            return None if others else out
+        return _list_contributions(f, v, g.stmt(defs[0][0]))
+    return None
 
 
 def r5_modes(repo):
@@ -486,23 +525,20 @@ def r5_modes(repo):
     obs.append(Ob("C16-R5", "_get_declarations_glob:worklist", _where(repo, f), ok, msg))
 
     f = repo.method(CTX, "find_namespaces", inherited=False)
-    comps = [n for n in iter_own_nodes(f.node) if isinstance(n, ast.ListComp)]
     want = {"get_funcs", "get_classes"}
     got = set()
     shape_ok = True
-    for c in comps:
-        it = c.generators[0].iter
+    ret = f.node.body[-1]
+    contribs = _list_contributions(f, ret.value, ret) if isinstance(ret, ast.Return) and ret.value is not None else None
+    ret_ok = contribs is not None and len(contribs) == 2
+    for it, tgt, elt, filt in (contribs or []):
         if isinstance(it, ast.Call) and call_name(it) in want:
             got.add(call_name(it))
             oc = const_value(kwarg(it, "only_current", 1))
             shape_ok &= src(it.args[0]) == "namespace" and oc is True and \
-                src(c.elt).replace(" ", "") == "namespace+(%s,)" % src(c.generators[0].target) \
-                and not c.generators[0].ifs
-    ret = f.node.body[-1]
-    ret_ok = isinstance(ret, ast.Return) and isinstance(ret.value, ast.BinOp) and \
-        {n.id for n in ast.walk(ret.value) if isinstance(n, ast.Name)} == \
-        {t.targets[0].id for t in f.node.body if isinstance(t, ast.Assign) and
-         isinstance(t.value, ast.ListComp)}
+                src(elt).replace(" ", "") == "namespace+(%s,)" % src(tgt) and not filt
+        else:
+            shape_ok = False
     obs.append(Ob("C16-R5", "find_namespaces:functions-and-classes-of-namespace", _where(repo, f),
                   got == want and shape_ok and ret_ok,
                   "find_namespaces must return namespace+(name,) for every function and class of exactly "
